@@ -131,17 +131,22 @@ func init() {
 	def := propInfo{quickS: 25, thorS: 600, maxRuns: 2000000, level: "exploration"}
 	rules := map[string]string{
 		"C01": "each case is one seeded simulated run (S-core: real gldap.Server over the simulated transport, raw clients sending generated requests of all seven operations plus unsupported ones through fragmenting/coalescing pipes); non-trivial = at least one handler was entered; distinct = distinct schedule signature (hash of the sequence of (actor, yield site / scheduler action) pairs)",
-		"C03": "seeded runs with a random route table (up to 4 routes quick / 6 thorough, default and unbind routes registered 0-2 times) and pipelined requests over the same alphabet; non-trivial = a handler was entered or a refusal was received; distinct = schedule signature",
+		"C03": "seeded runs with a random route table (up to 4 routes quick / 6 thorough, default and unbind routes registered 0-2 times, in a quarter of the tables the last routes registered on the live mux after Run has started) and pipelined requests over the same alphabet, now and then 129-220 of them with every handler blocked; non-trivial = a handler was entered or a refusal was received; distinct = schedule signature",
 		"C04": "seeded runs in which handler scripts build every response kind with random option subsets and setter sequences and write them through the shared writer; non-trivial = at least one frame was received by a client; distinct = schedule signature",
-		"C05": "seeded runs with 2..48 (quick) / 2..400 (thorough) concurrently dispatched handlers on one connection, each writing 1-6 frames, with small receive windows and clients that stop reading; non-trivial = at least two response frames were attempted on one connection; distinct = schedule signature",
+		"C05": "seeded runs with 2..48 (quick) / 2..400 (thorough) concurrently dispatched handlers on one connection, each writing 1-6 frames, with small receive windows, clients that stop reading, frames padded to exactly the write-buffer size, write timeouts and clock jumps; non-trivial = at least two response frames were attempted on one connection; distinct = schedule signature",
 		"C06": "seeded runs in which every handler blocks at entry; oracle at the first quiescence with no handler released; non-trivial = a pipeline of at least two stalled handlers on one connection; distinct = schedule signature",
 		"C07": "seeded runs with faults (reset, accept error, client stops reading, truncated frame, garbage, handler panic) inside bystander traffic; non-trivial = at least one fault fired; distinct = schedule signature",
 		"C08": "seeded runs over every connection ending x in-flight state; non-trivial = at least one connection ending was judged; distinct = schedule signature",
 		"C09": "seeded runs with many connect/request/close/reconnect sequences; non-trivial = at least one connection ending was judged; distinct = schedule signature",
 		"C10": "seeded runs with pipelines <requests> Unbind <requests>; non-trivial = an Unbind was delivered on an undisturbed connection; distinct = schedule signature",
-		"C11": "seeded runs in which Stop is invoked at a scheduler-chosen step while clients stay passive; non-trivial = Stop was invoked with at least one accepted connection; distinct = schedule signature",
+		"C11": "seeded runs in which Stop is invoked at a scheduler-chosen step (also while Run is still starting up) while clients stay passive; a Stop that nothing in the harness held up must return within 10 s of simulated time; non-trivial = Stop was invoked with at least one accepted connection; distinct = schedule signature",
 		"C12": "seeded runs over all orders of Stop relative to Run's steps; non-trivial = Stop was invoked; distinct = schedule signature",
-		"C17": "seeded runs with a Ready poller racing Run over valid, malformed and busy addresses; non-trivial = Ready was observed true or Run failed; distinct = schedule signature",
+		"C13": "seeded runs with StartTLS clients (handler stalls before and after the reply, plaintext injected behind the StartTLS request, StartTLS asked for again inside the tunnel, upgrades performed by the default route), clock jumps and Stop; non-trivial = a handler was entered; distinct = schedule signature",
+		"C14": "seeded runs with generated controls of all nine typed kinds and arbitrary OIDs in both directions, decoded by gldap and by go-ldap, plus a sweep of the Behera constructor; non-trivial = a handler was entered; distinct = schedule signature",
+		"C18": "seeded runs against TLS listeners (server authentication, and client certificate required) with conforming clients and clients that send plaintext or garbage, stay silent, abandon the handshake, present no or a foreign certificate (now and then a crowd of 9-14 of them), and the test directory with WithMTLS probed with valid, missing, foreign and sibling-CA certificates; non-trivial = a handshake was attempted; distinct = schedule signature",
+		"C19": "seeded runs of the real test directory with go-ldap clients over plain, TLS and StartTLS: binds (one at a time and 2-4 at the same moment) against generated user sets with Set* calls in between, judged by a three-line reference predicate; distinct = schedule signature",
+		"C20": "seeded runs of the real test directory with go-ldap clients: add, modify, delete, searches (users base, groups base, entry DN) and Set* calls one operation at a time against a reference store, with one client reset during a search; distinct = schedule signature",
+		"C17": "seeded runs with a Ready poller racing Run over valid, malformed and busy addresses (the port held with and without SO_REUSEPORT), with bursts of Accept errors; non-trivial = Ready was observed true or Run failed; distinct = schedule signature",
 	}
 	for i := 1; i <= 20; i++ {
 		id := fmt.Sprintf("C%02d", i)
